@@ -37,7 +37,7 @@ CHECKS = {
  "C16": dict(
    technique="runtime oracle monitor with ground truth by construction: texts assembled from shared fragments so that coverage and the expected target pieces of every source are known; checked stage by stage (transpose result, annotate_from_iter, transposed pieces and text, new transposition, transposing back), with a before/after snapshot for refused sources",
    text="2-3 texts built from 1-5 shared fragments (1-4 byte codepoints) with 0-3 codepoints of noise, re-ordered on the other sides; simple and complex transpositions; sources of 1-2 ranges inside a fragment, across adjacent fragments (re-segmentation), partly or wholly outside; source side Auto/ByIndex; with and without source id. A covered source must transpose, its builders must be accepted, the transposed annotation must lie in the other resource with the expected pieces and identical text piece by piece, the new transposition must link sides with identical text, and transposing back must return the original offsets; an uncovered source must be refused and leave the store unchanged. Held on the setups observed.",
-   note="Trusted: the construction in harness/src/c16.rs (a source is covered iff every position of it lies inside a fragment of its side). Transpositions within a single resource and TransposeConfig variants other than source side / ids are not exercised.",
+   note="Trusted: the construction in harness/src/c16.rs (a source is covered iff every position of it lies inside a fragment of its side). TransposeConfig knobs exercised: source side Auto/ByIndex, pinned ids, allow_simple (simple transposition as output), no_transposition, no_resegmentation. Transpositions within a single resource are not exercised.",
    ref="5/C16"),
  "C17": dict(
    technique="runtime oracle monitor: every annotation of seeded hostile stores is exported with to_webannotation, parsed with serde_json (well-formedness oracle) and its target and body compared with the shadow model (selector structure, resource IRIs, absolute offsets, value content and JSON type)",
